@@ -97,6 +97,7 @@ def pair_list():
     return P
 
 
+DEEP_STYLE_CONFIGS = ('s:css', 's:stylus', 's:css+section', 's:css+property', 's:css+value', 's:css+align-content', 's:css+json')
 K = config_list()
 P = pair_list()
 ALLCFG = dict(K)
@@ -106,7 +107,7 @@ BOUNDS = {
     # chars_k: every config of K; chars_default: default markup config; pairs: every pair of deviations
     'quick': dict(chars_default=4, chars_k=3, pairs=2, units=3, units_k=2, s_chars=2, s_chars_cached=3, s_units=2,
                   s_units_cached=3, s_pairs=1, radius=1, seeds=40),
-    'thorough': dict(chars_default=5, chars_k=4, pairs=3, units=4, units_k=3, s_chars=3, s_chars_cached=4, s_units=3,
+    'thorough': dict(chars_default=5, chars_k=4, pairs=3, units=4, units_k=3, s_chars=3, s_chars_cached=4, s_units=2,
                      s_units_cached=4, s_pairs=2, radius=2, seeds=16),
 }
 
@@ -118,12 +119,14 @@ def describe(tier):
              'configuration, <= %d under each of the %d markup configurations of K (9 syntaxes + %d single deviations), '
              '<= %d under each of the %d pairs of deviations; <= %d token-level units (default) / <= %d (K). Stylesheet '
              'alphabet (%d symbols): <= %d symbols and <= %d units under each of the %d stylesheet configurations without '
-             'cache, one more symbol/unit cache-assisted (fresh cache per shard, failures re-run without cache), pairs at '
+             'cache, up to <= %d symbols / <= %d units cache-assisted (units at the deepest bound for %s, one less elsewhere; fresh cache per '
+             'shard, failures re-run without cache), pairs at '
              '<= %d. E3: edit distance <= %d around %d markup and %d stylesheet seeds. State = (string, configuration); '
              'transition = one appended symbol / unit / edit.' % (
                  len(SIGMA_M), b['chars_default'], b['chars_k'], sum(1 for k in K if k.startswith('m:')), len(DEV_M),
                  b['pairs'], sum(1 for k in P if k.startswith('m:')), b['units'], b['units_k'], len(SIGMA_S), b['s_chars'],
-                 b['s_units'], sum(1 for k in K if k.startswith('s:')), b['s_pairs'], b['radius'],
+                 b['s_units'], sum(1 for k in K if k.startswith('s:')), b['s_chars_cached'], b['s_units_cached'],
+                 list(DEEP_STYLE_CONFIGS), b['s_pairs'], b['radius'],
                  len(SEEDS_M[:b['seeds']]), len(SEEDS_S[:b['seeds']])),
         nontrivial='expand returned a string (the whole pipeline ran: tokenizer, parser, converter, resolvers, formatter).',
         bounds=b,
@@ -158,7 +161,9 @@ def shards(tier):
             for sh in explore.strings_shards(SIGMA_S, b['s_chars_cached'], 1):
                 if not sh.get('short'):
                     out.append(dict(cfg=name, alpha='S', cached=True, minlen=b['s_chars'] + 1, **sh))
-            for sh in explore.strings_shards(UNITS_S, b['s_units_cached'], 1):
+            # the deepest unit sweep only for the configurations that change how an abbreviation is parsed or resolved
+            deep = name in DEEP_STYLE_CONFIGS
+            for sh in explore.strings_shards(UNITS_S, b['s_units_cached'] if deep else b['s_units_cached'] - 1, 1):
                 if not sh.get('short'):
                     out.append(dict(cfg=name, alpha='US', cached=True, minlen=b['s_units'] + 1, **sh))
     for name in P:
